@@ -463,15 +463,18 @@ def allNil : List (Nat × Schema) → List Value → Bool
   | (_, s) :: fs, v :: vs => isNilField s v && allNil fs vs
   | _, _ => false
 
-/-- array layout: `array(max_index + 1)`, gaps filled with `null`, nothing after the last
-    non-nil field (`pos` = next array position) -/
-def encArr (e : Schema → Value → Option Item) : Nat → List (Nat × Schema) → List Value → Option (List Item)
+/-- array layout: `array(max_index + 1)`, gaps filled with `null` (`pos` = next array position).
+    `trunc`: nothing is written after the last non-nil field. minicbor-derive tests
+    `Encode::is_nil(&field)`; for a struct that is `Option::is_none` on the field, but the fields
+    of an enum variant are bound by reference and `impl Encode for &T` keeps the default
+    `is_nil = false`, so variants are always written at full length (`trunc = false`). -/
+def encArr (e : Schema → Value → Option Item) (trunc : Bool) : Nat → List (Nat × Schema) → List Value → Option (List Item)
   | _, [], [] => some []
   | pos, (idx, s) :: fs, v :: vs =>
-    if allNil ((idx, s) :: fs) (v :: vs) then some []
+    if trunc && allNil ((idx, s) :: fs) (v :: vs) then some []
     else if idx < pos then none
     else
-      match e s v, encArr e (idx + 1) fs vs with
+      match e s v, encArr e trunc (idx + 1) fs vs with
       | some it, some rest => some (List.replicate (idx - pos) mkNull ++ it :: rest)
       | _, _ => none
   | _, _, _ => none
@@ -555,7 +558,7 @@ def encStruct (e : Schema → Value → Option Item) (l : Layout) (t : Option Na
     Value → Option Item
   | .list vs =>
     match l with
-    | .array => (encArr e 0 fs vs).map (fun xs => wrapTag t (mkArray xs))
+    | .array => (encArr e true 0 fs vs).map (fun xs => wrapTag t (mkArray xs))
     | .map => (encMapFields e fs vs).map (fun ps => wrapTag t (mkMapFlat (flattenPairs ps)))
   | _ => none
 
@@ -577,11 +580,11 @@ def decStruct (d : Schema → Item → Option Value) (l : Layout) (t : Option Na
         | none => none
       | none => none
 
-/-- `[n, field..]` with trailing nil fields dropped -/
+/-- `[n, field..]`, every field written -/
 def encEnumFlat (e : Schema → Value → Option Item) (vs : List (Nat × List (Nat × Schema))) : Value → Option Item
   | .variant pos fields =>
     match vs[pos]? with
-    | some (n, fs) => (encArr e 0 fs fields).map (fun xs => mkArray (mkUInt n :: xs))
+    | some (n, fs) => (encArr e false 0 fs fields).map (fun xs => mkArray (mkUInt n :: xs))
     | none => none
   | _ => none
 
